@@ -10,6 +10,7 @@ fi
 /venv/bin/python tools/extract_facts.py coq/Gen/Facts.v
 /venv/bin/python tools/translate_src.py coq/Gen/Src.v
 /venv/bin/python tools/translate_merge.py coq/Gen/SrcMerge.v
+/venv/bin/python tools/translate_eval.py coq/Gen/SrcEval.v
 cd coq
 coq_makefile -f _CoqProject -o Makefile > /dev/null
 timeout 3000 make -k -j16 2>&1 | tail -5
